@@ -20,6 +20,9 @@ TRUSTED = ["theories/Wire/WireModel.v is a hand transcription of dds/src/rtps_me
            "the big-endian byte layout used to exercise the decoder's big-endian branch is written by the harness "
            "(dust-dds has no big-endian writer); it is compared byte for byte with the Coq encoder `encode_message false`"]
 ASSUMPTIONS = ["set members lie within base .. base+255 (what SequenceNumberSet::new / FragmentNumberSet::new accept)",
+               "SequenceNumberSet members are below i64::MAX: i64::MAX is not a usable sequence number (the set() "
+               "iterator ends at such a member since 6f37365 and every consumer adds 1), so the generator never "
+               "produces it as a member (C07's mutation stream feeds it to the decoder)",
                "parameter ids differ from PID_SENTINEL; at most 65536 submessages per message (MAX_SUBMESSAGES)",
                "round trip is claimed outside the two recorded classes only: a submessage body or a padded parameter "
                "longer than 65535 bytes (C08-length-truncation) and INFO_REPLY with the multicast flag "
@@ -71,7 +74,7 @@ def corpus():
         ("LE", h + ([],)),
         ("LE", h + ([["IT", "0", "4", "0"], ["DA", "1000", "01020304", "06070809", "5", "6:0a0b0c0d,7:141516", "-"]],)),
         ("LE", h + ([["AN", "1", "01020304", "06070809", "100", "102,200,355", "-3"], ["NF", "01020304", "06070809", "9", "2", "2,257", "7"]],)),
-        ("BE", h + ([["GP", "01020304", "06070809", "5", "9223372036854775552", "9223372036854775552,9223372036854775807"], ["PD"]],)),
+        ("BE", h + ([["GP", "01020304", "06070809", "5", "9223372036854775552", "9223372036854775552,9223372036854775806"], ["PD"]],)),
         # D17: 70 000-byte DATA payload, length field truncated by `as u16`
         ("LE", h + ([["DA", "0100", "01020304", "06070809", "1", "-", "aa*70000"], ["HB", "10", "01020304", "06070809", "1", "1", "1"]],)),
         ("LE", h + ([["IR", "1", "1:7400:" + "00" * 16, "1:7401:" + "ef" * 16]],)),
